@@ -57,8 +57,13 @@ def make_case(rc):
             cells['B1'] = r
         out = I.eval_formula('=A1%sB1' % XL[op], cells, addr='D4')
     elif k == 'override':
-        ov = [I.Cell(0, 0, 0, l), I.Cell(0, 1, 0, r)]
-        out = I.eval_formula('=A1%sB1' % XL[op], {'A1': 1, 'B1': 2}, addr='D4', overrides=ov)
+        # the cells as the workbook holds them (numbers, or dates when rc['base'] says so): what is compared is what the overrides supply
+        base = {'A1': 1, 'B1': 2} if rc.get('base') != 'dates' else {'A1': dt.datetime(2020, 1, 1), 'B1': dt.datetime(2021, 6, 15, 12, 30)}
+        ov = [I.Cell(0, 0, 0, l), I.Cell(0, 1, 0, r)] if rc.get('only') is None else [I.Cell(0, rc['only'], 0, [l, r][rc['only']])]
+        if rc.get('only') is not None:
+            other = base['AB'[1 - rc['only']] + '1']
+            l, r = (l, other) if rc['only'] == 0 else (other, r)
+        out = I.eval_formula('=A1%sB1' % XL[op], base, addr='D4', overrides=ov)
     elif k == 'literal':
         out = I.eval_formula('=%s%s%s' % (rc['ll'], XL[op], rc['rl']), {}, addr='D4')
     else:
@@ -108,6 +113,9 @@ def gen_recipes(rng, tier):
     dvals = [p for p in P if isinstance(p, dict) and ('dt' in p or 'd' in p)]
     for l, r in itertools.product(dvals, dvals):
         out.append({'kind': 'override', 'op': rng.choice(OPS)[0], 'l': l, 'r': r})
+        # ... and the same over cells that hold DATES in the workbook, both overridden or only one of them
+        out.append({'kind': 'override', 'op': rng.choice(OPS)[0], 'l': l, 'r': r, 'base': 'dates'})
+        out.append({'kind': 'override', 'op': rng.choice(OPS)[0], 'l': l, 'r': r, 'base': 'dates', 'only': rng.randrange(2)})
     # the falsy values (0, 0.0, False, '') as OVERRIDES against small fractions, integers, texts and each other: an override must reach the
     # comparison as the value it is, not as a blank
     falsy = [C.jenc(0), C.jenc(0.0), C.jenc(False), C.jenc('')]
